@@ -162,6 +162,15 @@ def stage_visit(rng, bad_items, quick):
     serial = corr_C13.observe(kind, depth, table, apex, sub)["visit"]
     items = list(serial)
     desc = dict(stage="visit_leaves", kind=kind, depth=depth, table=[list(p) for p in table], apex=list(apex), sub=sub)
+    if kind != 2:
+        # unfiltered pyramids: the item set is known without asking the implementation (C13 does the filtered ones):
+        # every position of the leaf level below the apex
+        a = apex if sub else (0, 0, 0)
+        k = depth - a[0]
+        want = sorted((depth, (a[1] << k) + i, (a[2] << k) + j) for i in range(2 ** k) for j in range(2 ** k)) if k >= 0 else []
+        if sorted(map(tuple, items)) != want:
+            desc["independent_leaf_set_mismatch"] = dict(expected=len(want), serial_visit=len(items))
+            items = list(want)
 
     def call(rec, par, bad):
         p = corr_C13.build_pyramid(kind, depth, table, apex, sub)
@@ -482,11 +491,34 @@ def run(ctx, V):
                         stage_idx=r.get("stage_idx"), chosen=[list(ch) for _e, ch in r["trace"]])
             V.disagreement(rel, case, "model replay of the recorded trace; theorem visit_terminal",
                            dict(outcome=r["outcome"], started=r["started"][:20], exits=r["exits"], why=why), bool(why))
+    # search for a failing input: stages whose trace the model rejects although the outcome satisfied the
+    # statement are re-run under many more schedules that let the workers poll right before the shutdown flag
+    n_search = 0
+    sus = [idx[t_i] for t_i in sorted(bad)]
+    if sus and not any(property_fails(results[j]) for j in sus):
+        found = False
+        for j in sus[:4]:
+            si = results[j].get("stage_idx", 0)
+            for t in range(400 if quick else 1500):
+                srng = common.rng_for(rng.randrange(1 << 30), "C03search")
+                r = run_case(srng, STAGES[si], quick=quick, mode_override=srng.choice(("late_flag", "late_flag", "eager_poll", "starve_feeder")))
+                n_search += 1
+                why = property_fails(r)
+                if why:
+                    V.disagreement("C03 predicate on implementation (found by searching schedules of a stage the model rejects)",
+                                   dict(desc=r["desc"], par=r["par"], pcap=r["pcap"], bad=r["bad"], cont=False, stage_idx=si,
+                                        chosen=[list(ch) for _e, ch in r["trace"]]),
+                                   "every item exactly once, then return",
+                                   dict(outcome=r["outcome"], started=r["started"][:20], exits=r["exits"], why=why), True)
+                    found = True
+                    break
+            if found:
+                break
     samples = [dict(desc=r["desc"], par=r["par"], pcap=r["pcap"], mode=r["mode"], steps=len(r["trace"]),
                     first_actions=[list(ch) for _e, ch in r["trace"][:10]]) for r in results[:3]]
     n_fork = real_fork_runs(rng, 4 if quick else 24, V)
     return dict(evaluations=len(results) + n_fork, distinct_nontrivial=len(nontrivial), real_fork_runs=n_fork,
-                traces_validated_against_impl=len(terms),
+                traces_validated_against_impl=len(terms), schedules_searched_after_a_disagreement=n_search,
                 cases_with_lock_contention=sum(1 for r in results if r.get("cont")),
                 contended_empty_exceptions_taken=n_ctimeouts,
                 scheduler_steps=sum(len(r["trace"]) for r in results),
